@@ -1245,6 +1245,9 @@ func (p *Parser) quotedHdocWord() *Word {
 	stop := p.hdocStops[len(p.hdocStops)-1]
 	for ; ; r = p.rune() {
 		if r == runeEOF {
+			// Like the lexer does for any other token, so that the
+			// "unclosed here-document" error is reported as incomplete.
+			p.tok = _EOF
 			return nil
 		}
 		for p.quote == hdocBodyTabs && r == '\t' {
